@@ -267,7 +267,7 @@ theorem subOf_decodes (bytes : Bytes) (hb : ∀ x ∈ bytes, x < 256) (m : Span)
   · simp [hv, decodeData]
   · simp [hv, decodeData, PrinterJson.base64_roundtrip _ hsl]
 
-/-! ### no panic in single-line mode -/
+/-! ### no panic -/
 
 theorem slice_length (b : Bytes) (s e : Nat) (h : e ≤ b.length) : (slice b s e).length = e - s := by
   unfold slice
@@ -284,16 +284,16 @@ theorem cutHaystack_single_le (sc : SCfg) (hml : sc.multiLine = false) (bytes : 
     · exact Nat.le_refl _
   omega
 
-/-- In single-line mode a sane matcher's matches, shifted to the line, can always be sliced out of the line. -/
-theorem inRange_single (sc : SCfg) (find : Oracle) (hml : sc.multiLine = false) (buf : Bytes) (rs re : Nat)
-    (hrs : rs ≤ re) (hre : re ≤ buf.length)
+/-- A sane matcher's matches, shifted to the reported lines, can always be sliced out of them: in single-line mode
+the haystack ends with the line, in multi-line mode the printers clamp a match to the end of the range. -/
+theorem inRange_all (sc : SCfg) (find : Oracle) (buf : Bytes) (rs re : Nat)
+    (_hrs : rs ≤ re) (hre : re ≤ buf.length)
     (hs : Sane (find (cutHaystack sc buf re)) (cutHaystack sc buf re).length) :
     InRange (slice buf rs re) (shiftSpans rs (findIterInContext sc find buf rs re)) := by
   intro m hm
   unfold shiftSpans at hm
   obtain ⟨m0, hm0, rfl⟩ := List.mem_map.mp hm
-  obtain ⟨h1, h2, h3, _⟩ := findIterInContext_collected sc find buf rs re hs m0 hm0
-  have hcut := cutHaystack_single_le sc hml buf re
+  obtain ⟨h1, h2, _, h4, _⟩ := findIterInContext_collected sc find buf rs re hs m0 hm0
   rw [slice_length buf rs re hre]
   simp only
   omega
@@ -310,7 +310,7 @@ theorem writeBegin_panicked (jc : JsonCfg) (st : JsonState) : (st.writeBegin jc)
   unfold JsonState.writeBegin
   split <;> rfl
 
-theorem jsonEvent_no_panic (sc : SCfg) (jc : JsonCfg) (find : Oracle) (hml : sc.multiLine = false)
+theorem jsonEvent_no_panic (sc : SCfg) (jc : JsonCfg) (find : Oracle)
     (st : JsonState) (ev : Event) (h0 : st.panicked = false) (hok : EventOk sc find ev) :
     (jsonEvent sc jc find st ev).1.panicked = false := by
   cases ev with
@@ -318,7 +318,7 @@ theorem jsonEvent_no_panic (sc : SCfg) (jc : JsonCfg) (find : Oracle) (hml : sc.
   | matched buf rs re off ln =>
     obtain ⟨hrs, hre, hs⟩ := hok
     simp only [jsonEvent, jsonMatched, recordMatchesJson]
-    rw [subMatches_of_inRange (inRange_single sc find hml buf rs re hrs hre hs)]
+    rw [subMatches_of_inRange (inRange_all sc find buf rs re hrs hre hs)]
     simp [writeBegin_panicked, h0]
   | context k bytes off ln =>
     simp only [jsonEvent, jsonContext, recordMatchesJson]
@@ -326,13 +326,13 @@ theorem jsonEvent_no_panic (sc : SCfg) (jc : JsonCfg) (find : Oracle) (hml : sc.
     | false => simp [writeBegin_panicked, h0]
     | true =>
       simp only [↓reduceIte]
-      have hin := inRange_single sc find hml bytes 0 bytes.length (Nat.zero_le _) (Nat.le_refl _) hok
+      have hin := inRange_all sc find bytes 0 bytes.length (Nat.zero_le _) (Nat.le_refl _) hok
       have hsl : slice bytes 0 bytes.length = bytes := by simp [slice]
       rw [hsl] at hin
       rw [subMatches_of_inRange hin]
       simp [writeBegin_panicked, h0]
 
-theorem jsonEvents_no_panic (sc : SCfg) (jc : JsonCfg) (find : Oracle) (hml : sc.multiLine = false) :
+theorem jsonEvents_no_panic (sc : SCfg) (jc : JsonCfg) (find : Oracle) :
     ∀ (evs : List Event) (st : JsonState), st.panicked = false → (∀ ev ∈ evs, EventOk sc find ev) →
       (jsonEvents sc jc find st evs).panicked = false := by
   intro evs
@@ -341,7 +341,7 @@ theorem jsonEvents_no_panic (sc : SCfg) (jc : JsonCfg) (find : Oracle) (hml : sc
   | cons ev rest ih =>
     intro st h0 hall
     rw [jsonEvents_cons]
-    have h1 := jsonEvent_no_panic sc jc find hml st ev h0 (hall ev (by simp))
+    have h1 := jsonEvent_no_panic sc jc find st ev h0 (hall ev (by simp))
     by_cases hc : (jsonEvent sc jc find st ev).2 = true
     · simp only [hc, ↓reduceIte]
       exact ih _ h1 (fun e he => hall e (List.mem_cons_of_mem _ he))
@@ -363,9 +363,8 @@ theorem jsonBegin_panicked (jc : JsonCfg) : (jsonBegin jc {}).1.panicked = false
     · rfl
     · simp [writeBegin_panicked]
 
-/-- **No panic**: in single-line mode, for well-formed events and a sane matcher, `SubMatches::new` never
-slices out of range. -/
-theorem jsonSearch_no_panic (sc : SCfg) (jc : JsonCfg) (find : Oracle) (hml : sc.multiLine = false)
+/-- **No panic**: for well-formed events and a sane matcher, `SubMatches::new` never slices out of range. -/
+theorem jsonSearch_no_panic (sc : SCfg) (jc : JsonCfg) (find : Oracle)
     (evs : List Event) (bc : Nat) (hall : ∀ ev ∈ evs, EventOk sc find ev) :
     (jsonSearch sc jc find evs bc).panicked = false := by
   unfold jsonSearch
@@ -376,7 +375,7 @@ theorem jsonSearch_no_panic (sc : SCfg) (jc : JsonCfg) (find : Oracle) (hml : sc
   rw [jsonFinish_panicked]
   by_cases hgo : go = true
   · simp only [hgo, ↓reduceIte]
-    exact jsonEvents_no_panic sc jc find hml evs st1 h0 hall
+    exact jsonEvents_no_panic sc jc find evs st1 h0 hall
   · simp only [hgo, Bool.false_eq_true, ↓reduceIte]
     exact h0
 
